@@ -118,3 +118,55 @@ fn n_elf_section_names() {
     }
     std::println!("n_elf_section_names: {cases} cases");
 }
+
+// ---------------------------------------------------------------------------------
+// BOUNDED NATIVE STAND-IN for C19 / C01 "section headers or a string-table index beyond the
+// tag's payload are rejected by a controlled panic, never read": `sections()` on tags whose
+// declared size is 0..=24 bytes SHORT of 20 + n * entry_size (entry sizes 40 and 64, n = 1..=3)
+// must panic; an exact fit and any slack must be accepted with exactly n entries, all inside
+// the tag.  String-table index: shndx < n or 0 accepted, shndx >= n (n > 0) rejected.
+// (Kani cannot compile this type; a change that adds a helper method to ElfSectionsTag makes
+// the Verus unit undecided: this stand-in keeps such a change replayable.)
+// ---------------------------------------------------------------------------------
+#[test]
+fn n_elf_sections_truncated() {
+    use std::panic::{catch_unwind, AssertUnwindSafe};
+    let mut cases = 0u32;
+    for &esz in &[40usize, 64] {
+        for n in 1usize..=3 {
+            let full = 20 + n * esz;
+            for short in 0usize..=24 {
+                for shndx in [0u32, (n as u32).saturating_sub(1), n as u32, n as u32 + 1] {
+                    let size = full - short;
+                    let mut buf = Aligned([0x11u8; 256]);
+                    let b = &mut buf.0;
+                    let padded = (size + 7) & !7;
+                    b[0..4].copy_from_slice(&9u32.to_le_bytes());
+                    b[4..8].copy_from_slice(&(size as u32).to_le_bytes());
+                    b[8..12].copy_from_slice(&(n as u32).to_le_bytes());
+                    b[12..16].copy_from_slice(&(esz as u32).to_le_bytes());
+                    b[16..20].copy_from_slice(&shndx.to_le_bytes());
+                    for e in 0..n {
+                        let o = 20 + e * esz;
+                        b[o + 4..o + 8].copy_from_slice(&1u32.to_le_bytes());
+                    }
+                    let base = b.as_ptr() as usize;
+                    let generic = DynSizedStructure::<TagHeader>::ref_from_slice(&b[..padded]).unwrap();
+                    let tag = generic.cast::<ElfSectionsTag>();
+                    let res = catch_unwind(AssertUnwindSafe(|| tag.sections().map(|s| s.inner as usize).collect::<Vec<usize>>()));
+                    let shndx_ok = shndx == 0 || (shndx as usize) < n;
+                    if short > 0 || !shndx_ok {
+                        assert!(res.is_err(), "entry size {esz}, {n} entries, declared size {size} ({short} short), shndx {shndx}: must be rejected, got {:?}", res.map(|v| v.len()));
+                    } else {
+                        let got = res.expect("exact fit must be accepted");
+                        let want: Vec<usize> = (0..n).map(|e| base + 20 + e * esz).collect();
+                        assert_eq!(got, want);
+                        assert!(got.iter().all(|a| a + esz <= base + size));
+                    }
+                    cases += 1;
+                }
+            }
+        }
+    }
+    std::println!("n_elf_sections_truncated: {} cases", cases);
+}
